@@ -4,6 +4,7 @@
 From Coq Require Import List Arith Bool Lia Reals Lra.
 From NV Require Import Scalar.Ops Model.Common Model.Knots Model.Geom2D Model.Tess
   Proofs.TessValid Proofs.TessMain Proofs.TessR Proofs.TrimR.
+From NV Require Import Model.Geom2D Proofs.WindingRect Proofs.TrimCells.
 Import ListNotations.
 
 (* [F] the property's own finite range, exhausted: for ALL vertex-array sizes 2..40 x 2..40 the boolean validator
@@ -181,3 +182,107 @@ Example C15_example_obj :
 Proof. reflexivity. Qed.
 Example C15_example_uv : uv_acc Rops (uv_jump Rops 7 3) 2 = 1%R.
 Proof. rewrite C15_vertex_uv_is_grid_parameter by lia. simpl. lra. Qed.
+
+(* ====================== round 2 (Proofs/WindingRect.v, TrimCells.v): trimmed tessellation, cell-level soundness ('within one cell') ====================== *)
+
+
+(* [G] the winding test is constant on every closed axis-parallel rectangle that no edge of a CLOSED polyline meets
+   (closed_poly vs: last point = first point; no_edge_meets vs ...: forall consecutive p q, ~ seg_meets_rect p q ...) *)
+Theorem C15_winding_constant_off_the_trim : forall (vs : list (list R)) (u0 u1 v0 v1 x1 y1 x2 y2 : R),
+  closed_poly vs -> no_edge_meets vs u0 u1 v0 v1 ->
+  (u0 <= x1 <= u1)%R -> (v0 <= y1 <= v1)%R -> (u0 <= x2 <= u1)%R -> (v0 <= y2 <= v1)%R ->
+  wn_poly Rops [x1; y1] vs = wn_poly Rops [x2; y2] vs.
+Proof. exact wn_poly_const_on_rect. Qed.
+Print Assumptions C15_winding_constant_off_the_trim.
+
+(* [G] (a) every corner's winding test (corner_test: at the corner moved by (+-tols, +-tols), as the code does) succeeds
+   for some ordinary trim => the cell contributes no vertex and no triangle *)
+Theorem C15_trim_cell_corners_trimmed_omitted : forall (rtol tol tols : R) trims s c1 c2 c3 c4 vidx tidx,
+  distinct4 c1 c2 c3 c4 -> c1 < length s -> c2 < length s -> c3 < length s -> c4 < length s ->
+  (exists trim, In trim trims /\ treversed trim = false /\ corner_test Rops tols 0 (vget Rops s c1) trim = true) ->
+  (exists trim, In trim trims /\ treversed trim = false /\ corner_test Rops tols 1 (vget Rops s c2) trim = true) ->
+  (exists trim, In trim trims /\ treversed trim = false /\ corner_test Rops tols 2 (vget Rops s c3) trim = true) ->
+  (exists trim, In trim trims /\ treversed trim = false /\ corner_test Rops tols 3 (vget Rops s c4) trim = true) ->
+  surface_trim_tessellate Rops rtol tol tols trims s [c1; c2; c3; c4] vidx tidx =
+  (cls_fold Rops tols trims [c1; c2; c3; c4] s, [], []).
+Proof. exact (trim_cell_corners_trimmed_omitted Rops). Qed.
+Print Assumptions C15_trim_cell_corners_trimmed_omitted.
+
+(* [G] (b), structural: no corner classified inside => four corners, the two fan triangles (each kept unless its own
+   centre is trimmed), no new vertex - whatever intersections were recorded (strengthens C15_trim_cell_no_crossing_partial) *)
+Theorem C15_trim_cell_all_outside : forall (rtol tol tols : R) trims s c1 c2 c3 c4 vidx tidx,
+  let s1 := cls_fold Rops tols trims [c1; c2; c3; c4] s in
+  vinside (vget Rops s1 c1) = false -> vinside (vget Rops s1 c2) = false ->
+  vinside (vget Rops s1 c3) = false -> vinside (vget Rops s1 c4) = false ->
+  surface_trim_tessellate Rops rtol tol tols trims s [c1; c2; c3; c4] vidx tidx =
+  (s1, [c1; c2; c3; c4], filter (tri_kept Rops trims s1) [(tidx, (c1, c2, c3)); (S tidx, (c1, c3, c4))]).
+Proof. exact (trim_cell_all_outside Rops). Qed.
+Print Assumptions C15_trim_cell_all_outside.
+
+(* [G] "within one sampling cell" = (1) untouched cells are exact + (2) every cell's output stays in the cell.
+   pt_trimmed trims x y: the model's own trimmed-or-not decision of a parametric point (the flag automaton of the code run
+   on the winding tests of the point; it is what the code applies to triangle centres).  near_cell: the cell enlarged by
+   tol * side + tol (tol = the intersection tolerance 10e-8 of the code). *)
+Theorem C15_trim_within_one_cell :
+  forall (rtol tol tols : R) (trims : list (@trimc R)) (s : list (@vobj R)) (c1 c2 c3 c4 vidx tidx : nat) (u0 u1 v0 v1 : R),
+    (u0 < u1)%R -> (v0 < v1)%R ->
+    c1 < length s -> c2 < length s -> c3 < length s -> c4 < length s ->
+    vuv (vget Rops s c1) = [u0; v0] -> vuv (vget Rops s c2) = [u1; v0] ->
+    vuv (vget Rops s c3) = [u1; v1] -> vuv (vget Rops s c4) = [u0; v1] ->
+    ((0 <= tols)%R -> trims_closed trims ->
+     trims_miss_rect trims (u0 - tols) (u1 + tols) (v0 - tols) (v1 + tols) ->
+     Forall (fun c => vflags (vget Rops s c) = fff \/ vflags (vget Rops s c) = pt_flags trims u0 v0) [c1; c2; c3; c4] ->
+     (forall x y, (u0 - tols <= x <= u1 + tols)%R -> (v0 - tols <= y <= v1 + tols)%R -> pt_trimmed trims x y = pt_trimmed trims u0 v0) /\
+     surface_trim_tessellate Rops rtol tol tols trims s [c1; c2; c3; c4] vidx tidx =
+       if pt_trimmed trims u0 v0 then (cls_fold Rops tols trims [c1; c2; c3; c4] s, [], [])
+       else (cls_fold Rops tols trims [c1; c2; c3; c4] s, [c1; c2; c3; c4], [(tidx, (c1, c2, c3)); (S tidx, (c1, c3, c4))])) /\
+    ((0 <= tol)%R -> forall s2 tvs keep,
+     surface_trim_tessellate Rops rtol tol tols trims s [c1; c2; c3; c4] vidx tidx = (s2, tvs, keep) ->
+     forall i x y z, In (i, (x, y, z)) keep ->
+       (In x [c1; c2; c3; c4] \/ length s <= x) /\ (In y [c1; c2; c3; c4] \/ length s <= y) /\
+       (In z [c1; c2; c3; c4] \/ length s <= z) /\
+       near_cell tol u0 u1 v0 v1 (vget Rops s2 x) /\ near_cell tol u0 u1 v0 v1 (vget Rops s2 y) /\
+       near_cell tol u0 u1 v0 v1 (vget Rops s2 z)).
+Proof. exact trim_within_one_cell. Qed.
+Print Assumptions C15_trim_within_one_cell.
+
+(* [G] the corrected C15_trim_within_one_cell_full: corners are objects of the store, trims are closed polylines, tols >= 0,
+   and it is the tols-neighbourhood of the cell (where the corner test points live) that no trim segment meets *)
+Theorem C15_trim_within_one_cell_v2 :
+  forall (rtol tol tols : R) (trims : list (@trimc R)) (s : list (@vobj R)) (c1 c2 c3 c4 vidx tidx : nat) (u0 u1 v0 v1 : R),
+    (u0 < u1)%R -> (v0 < v1)%R ->
+    c1 < length s -> c2 < length s -> c3 < length s -> c4 < length s ->
+    vuv (vget Rops s c1) = [u0; v0] -> vuv (vget Rops s c2) = [u1; v0] ->
+    vuv (vget Rops s c3) = [u1; v1] -> vuv (vget Rops s c4) = [u0; v1] ->
+    Forall (fun c => vinside (vget Rops s c) = false /\ vtrim (vget Rops s c) = false /\ vnotrim (vget Rops s c) = false) [c1; c2; c3; c4] ->
+    (0 <= tols)%R ->
+    (forall trim, In trim trims -> closed_poly (tpts trim)) ->
+    (forall trim p q, In trim trims -> In (p, q) (combine (tpts trim) (tl (tpts trim))) ->
+       ~ seg_meets_cell p q (u0 - tols) (u1 + tols) (v0 - tols) (v1 + tols)) ->
+    let ts := snd (surface_trim_tessellate Rops rtol tol tols trims s [c1; c2; c3; c4] vidx tidx) in
+    ts = [] \/ ts = [(tidx, (c1, c2, c3)); (S tidx, (c1, c3, c4))].
+Proof. exact trim_within_one_cell_v2. Qed.
+Print Assumptions C15_trim_within_one_cell_v2.
+
+(* the statement as first written is false: tols is unconstrained there and the corner tests are made at the corners moved
+   by (+-tols, +-tols); witness: unit cell, tols = 10, one ordinary trim around (-10,-10): one triangle (c2,c3,c4) comes out *)
+Theorem C15_trim_within_one_cell_full_refuted : ~ C15_trim_within_one_cell_full.
+Proof. exact trim_within_one_cell_full_refuted. Qed.
+Print Assumptions C15_trim_within_one_cell_full_refuted.
+
+(* [G] re-classifying an object against the same winding tests does not change its flags: vertices shared with already
+   processed cells behave like fresh ones *)
+Theorem C15_trim_flags_idempotent : forall (test : @trimc R -> bool) trims f,
+  flag_update (flag_update f trims test) trims test = flag_update f trims test.
+Proof. exact flag_update_idem. Qed.
+Print Assumptions C15_trim_flags_idempotent.
+
+(* non-vacuity: an untouched, untrimmed cell and a cell inside an ordinary trim *)
+Example C15_example_untouched_cell :
+  surface_trim_tessellate Rops 1000%R 0%R (1 / 2)%R [far_trim] unit_store [0; 1; 2; 3] 4 0 =
+  (cls_fold Rops (1 / 2)%R [far_trim] [0; 1; 2; 3] unit_store, [0; 1; 2; 3], [(0, (0, 1, 2)); (1, (0, 2, 3))]).
+Proof. exact untouched_cell_example. Qed.
+Example C15_example_trimmed_cell :
+  surface_trim_tessellate Rops 1000%R 0%R (1 / 2)%R [big_trim] unit_store [0; 1; 2; 3] 4 0 =
+  (cls_fold Rops (1 / 2)%R [big_trim] [0; 1; 2; 3] unit_store, [], []).
+Proof. exact trimmed_cell_example. Qed.
